@@ -109,7 +109,7 @@ func (x *Exec) addCover(name string, pc []Term, cond Term) {
 	if x.covers == nil {
 		x.covers = map[string][]coverInst{}
 	}
-	if len(x.covers[name]) >= 64 {
+	if len(x.covers[name]) >= 2000 {
 		return
 	}
 	x.covers[name] = append(x.covers[name], coverInst{PC: append([]Term(nil), pc...), Cond: cond})
